@@ -58,6 +58,8 @@ pub struct Scenario {
     pub nontrivial: bool,
     /// unbounded exploration with sleep sets instead of the deviation bound
     pub unbounded: bool,
+    /// the body enumerates a family of cases itself (E2 loop scenario)
+    pub loop_body: bool,
 }
 
 #[derive(Clone, Debug, serde::Serialize, serde::Deserialize)]
@@ -301,8 +303,9 @@ pub fn explore(s: &Scenario, shard: usize, shards: usize, deadline: Option<Insta
         deadline,
         stop: false,
     }));
-    // determinism: the default execution must reproduce itself
-    if shard == 0 {
+    // determinism: the default execution must reproduce itself (enumerations inside one
+    // execution make no hidden choice and are not run three times)
+    if shard == 0 && !s.name.contains("#loop") && !s.loop_body {
         let a = run_once(vec![], s.orders[0], s.params.clone(), s.body.clone());
         let b = run_once(vec![], s.orders[0], s.params.clone(), s.body.clone());
         if a.trace != b.trace || a.log != b.log || a.status != b.status {
